@@ -139,6 +139,29 @@ def run(ctx):
                         break
                 else:
                     same_modes += 1
+    # the same Result object handed to two runs (res= is a documented parameter): the second run's results are the second run's
+    from pymwp import Analysis, Result
+    nreuse = 0
+    for label, src in progs[: ctx.n(40, 300)]:
+        for first_fin in (False, True):
+            try:
+                shared = Result()
+                vlib.with_timeout(lambda: Analysis.run(e2e.parse(src), res=shared, fin=first_fin, strict=False), 20)
+                r2 = vlib.with_timeout(lambda: Analysis.run(e2e.parse(src), res=shared, fin=not first_fin, strict=False), 20)
+                fresh = vlib.with_timeout(lambda: Analysis.run(e2e.parse(src), res=Result(), fin=not first_fin, strict=False), 20)
+            except Exception:
+                continue
+            nreuse += 1
+            strip = lambda d: {k: v for k, v in d.items() if k not in ("start_time", "end_time")}
+            got = {n_: strip(f_.to_dict()) for n_, f_ in r2.relations.items()}
+            want = {n_: strip(f_.to_dict()) for n_, f_ in fresh.relations.items()}
+            if got != want:
+                bad = [n_ for n_ in want if got.get(n_) != want[n_]] or list(got)
+                failing.append({"what": f"result-reuse: function {bad[0]} analysed with fin={not first_fin} into a Result object that already held its "
+                                        f"fin={first_fin} result differs from the same analysis into a new Result",
+                                "sig": ["C15", "result-reuse"], "input": {"src": src, "reuse": True, "first_fin": first_fin}, "expected": "the second run's own result",
+                                "observed": "a stale / mixed result"})
+                break
     ssf, ssinfo = streams.small_scope_map(ctx, _ss_worker, 800)
     failing += ssf
     if ctx.coq_ok:
@@ -149,7 +172,7 @@ def run(ctx):
     distinct = len({repr(d["typed"]) for d in recs if streams.nontrivial(d)})
     stats = {"evaluations": len(recs) + 2 * ssinfo["programs"], "distinct_nontrivial": distinct,
              "rule": "generated functions x {fin} x {strict}; every clause of the property checked on each real result; non-trivial = distinct typed function with a site and a loop or branch",
-             "samples": [progs[-1][1]], "distribution": dist, "finite_mode_pairs_equal": same_modes, "coq_model_cases": len(coq_cases), "small_scope": ssinfo}
+             "samples": [progs[-1][1]], "distribution": dist, "finite_mode_pairs_equal": same_modes, "coq_model_cases": len(coq_cases), "small_scope": ssinfo, "result_reuse_pairs": nreuse}
     return {"failing": failing, "corr_mismatch": mism, "stats": stats}
 
 
@@ -158,13 +181,33 @@ def replay(ctx, data):
     inp = data.get("input", data)
     o = inp.get("opts", {})
     failing = []
-    for fin in ((o["fin"],) if "fin" in o else (False, True)):
+    if inp.get("reuse"):
+        from pymwp import Analysis, Result
+        ff = bool(inp.get("first_fin"))
+        shared = Result()
+        Analysis.run(e2e.parse(inp["src"]), res=shared, fin=ff, strict=False)
+        r2 = Analysis.run(e2e.parse(inp["src"]), res=shared, fin=not ff, strict=False)
+        fresh = Analysis.run(e2e.parse(inp["src"]), res=Result(), fin=not ff, strict=False)
+        strip = lambda d: {k: v for k, v in d.items() if k not in ("start_time", "end_time")}
+        if {n_: strip(f_.to_dict()) for n_, f_ in r2.relations.items()} != {n_: strip(f_.to_dict()) for n_, f_ in fresh.relations.items()}:
+            return {"what": "result-reuse: stale result", "sig": ["C15", "result-reuse"], "input": inp}
+        return None
+    res = {}
+    for fin in ((o["fin"],) if ("fin" in o and data.get("sig", [None, None])[1:2] != ["modes-differ"] and False) else (False, True)):
         r = e2e.run_real(inp["src"], fin, o.get("strict", False))
         if r["exc"]:
             return {"what": f"raise: {r['exc']}", "sig": ["C15", "raise", r["exc"][0], r["exc"][1]], "input": inp}
         d = r["funcs"].get("f")
         if d is not None:
-            field_checks(d, fin, inp["src"], failing, o.get("strict", False))
+            res[fin] = d
+            if "fin" not in o or o["fin"] == fin:
+                field_checks(d, fin, inp["src"], failing, o.get("strict", False))
+    if len(res) == 2 and not res[False]["infinite"]:
+        a, b = e2e.strip(res[False]), e2e.strip(res[True])
+        for k in ("infinite", "index", "variables", "relation", "valid_boxes", "first", "bound", "inf_flows"):
+            if a.get(k) != b.get(k):
+                failing.append({"what": f"modes-differ: field {k}", "sig": ["C15", "modes-differ", k], "input": inp})
+                break
     want = data.get("sig")
     for f in failing:
         if want is None or f["sig"] == want:
